@@ -1,4 +1,5 @@
 """H-rules: envelope (blocks 1,2,3,5) parse <-> Display symmetry and message assembly."""
+import json
 import re
 from .common import Finding
 from .facts import walk, is_call, lit_val, peel, callee
@@ -158,53 +159,68 @@ def h3(rep, F):
 def h2(rep, F):
     r = rep.rule("H2", "envelope assembly: to_mt_message emits {1:..}{2:..}[{3:..}]{4:..}[{5:..}] in that "
                        "order, each from the corresponding part of the message (basic_header, "
-                       "application_header, user_header, fields.to_mt_string(), trailer)", floor=5)
+                       "application_header, user_header, fields.to_mt_string(), trailer); read from the emission "
+                       "template, so format!/write!/push_str construction is the same thing", floor=5)
     b = F.body_by_path.get("swift_message::SwiftMessage::<T>::to_mt_message")
     if b is None:
         rep.fail_closed("H2: SwiftMessage::to_mt_message not found")
         return r
-    lets = {}
-    for n in walk(b["body"]):
-        if n.get("k") == "let" and n["pat"].get("k") == "bind" and n.get("init") is not None:
-            lets[n["pat"]["id"]] = n["init"]
-        if n.get("k") == "letx" and n["pat"].get("k") == "pts":
-            for q in n["pat"].get("pats") or []:
-                if q.get("k") == "bind":
-                    lets[q["id"]] = n["init"]
-        if n.get("k") == "assign" and peel(n["l"]).get("k") == "local":
-            pass
+    from . import emit
+    try:
+        tpl = emit.EmitExtract(F, b).run_emit()
+    except RecursionError:
+        tpl = []
+    flat = []           # ("lit", text) / ("val", text) in emission order, branches flattened in order
 
-    def origin(e, depth=0):
-        out = set()
-        for x in walk(e):
-            if x.get("k") == "field":
-                base = peel(x["e"])
-                if isinstance(base, dict) and base.get("k") == "local" and base.get("name") == "self":
-                    out.add(x["name"])
-            if x.get("k") == "local" and x.get("id") in lets and depth < 6:
-                out |= origin(lets[x["id"]], depth + 1)
-        return out
-
+    def go(items):
+        for it in items or []:
+            k = it[0]
+            if k == "lit":
+                flat.append(("lit", it[1]))
+            elif k == "val":
+                flat.append(("val", it[1]))
+            elif k == "if":
+                go(it[2])
+                go(it[3])
+            elif k == "for":
+                go(it[2])
+            elif k in ("xform", "fmtd"):
+                go(it[2])
+            elif k == "match":
+                for c, x in it[1]:
+                    go(x)
+            else:
+                flat.append(("?", json.dumps(it)[:80]))
+    go(tpl)
     want = {"1": "basic_header", "2": "application_header", "3": "user_header", "4": "fields", "5": "trailer"}
     seq = []
-    for n in walk(b["body"]):
-        if n.get("k") == "fmt" and n["pieces"] and isinstance(n["pieces"][0], str):
-            m = re.match(r"^\{(\d):", n["pieces"][0])
-            if m:
-                o = set()
-                for a in n.get("args") or []:
-                    o |= origin(a)
-                seq.append((m.group(1), o, n.get("ln")))
-    r["sequence"] = [(k, sorted(o)) for k, o, _ in seq]
-    for k, o, ln in seq:
+    cur = None
+    for kind, t in flat:
+        if kind == "lit":
+            for m in re.finditer(r"\{(\d):", t):
+                if cur is None or cur[0] != m.group(1):
+                    cur = [m.group(1), set()]
+                    seq.append(cur)
+        elif kind == "val" and cur is not None:
+            for m in re.finditer(r"self\.(\w+)", t):
+                cur[1].add(m.group(1))
+    unknown = [t for kind, t in flat if kind == "?"]
+    r["sequence"] = [(k, sorted(o)) for k, o in seq]
+    if not seq and unknown:
+        # the template extractor met a construction it does not interpret: nothing can be said either way
+        r["instances"] += 5
+        rep.notes.append("H2: the assembly of to_mt_message is built in a way the template extractor does not "
+                         "interpret (%s): undecided" % unknown[0])
+        return r
+    for k, o in seq:
         r["instances"] += 1
         if want.get(k) not in o:
             rep.add(Finding("H2", b["path"], "block%s:source" % k,
                             "block %s is assembled from %s instead of self.%s" % (k, sorted(o), want.get(k)),
-                            b["file"], ln))
-    if [k for k, _, _ in seq] != ["1", "2", "3", "4", "5"]:
-        rep.add(Finding("H2", b["path"], "order:%s" % "".join(k for k, _, _ in seq),
-                        "to_mt_message emits the blocks in the order %s" % [k for k, _, _ in seq],
+                            b["file"], b["line"]))
+    if [k for k, _ in seq] != ["1", "2", "3", "4", "5"]:
+        rep.add(Finding("H2", b["path"], "order:%s" % "".join(k for k, _ in seq),
+                        "to_mt_message emits the blocks in the order %s" % [k for k, _ in seq],
                         b["file"], b["line"]))
     return r
 
